@@ -14,13 +14,13 @@ LastPresent(tp, a, b) == CHOOSE i \in a..b : tp[i].p /\ \A j \in (i + 1)..b : ~t
 StartOf(tp, r) == <<tp[FirstPresent(tp, r.a, r.b)].sl, tp[FirstPresent(tp, r.a, r.b)].sc>>
 EndCol(tp, r) == tp[LastPresent(tp, r.a, r.b)].ec
 
-ExpStmts(e) == {[k |-> s.k, line |-> StartOf(e.tokpos, s)[1], sc |-> StartOf(e.tokpos, s)[2], ec |-> EndCol(e.tokpos, s),
+ExpStmts(e) == {[k |-> s.k, tag |-> s.tag, line |-> StartOf(e.tokpos, s)[1], sc |-> StartOf(e.tokpos, s)[2], ec |-> EndCol(e.tokpos, s),
                  prev |-> IF s.prev = <<>> THEN <<>> ELSE StartOf(e.tokpos, s.prev[1]),
                  first |-> StartOf(e.tokpos, s.first)] : s \in Rng(StmtInfo(e.src))}
 ExpVals(e) == LET rs == Ranges(e.src)
                   es == Entries(e.src, HomeClass(e))
               IN {[line |-> StartOf(e.tokpos, rs[i])[1], sc |-> StartOf(e.tokpos, rs[i])[2], ec |-> EndCol(e.tokpos, rs[i]),
-                   ty |-> es[i].ty] : i \in {j \in DOMAIN rs : es[j].val}}
+                   ty |-> es[i].ty, lit |-> es[i].lit] : i \in {j \in DOMAIN rs : es[j].val}}
 ExpVars(e) == {[n |-> v.n, ty |-> v.ty, first |-> StartOf(e.tokpos, v.first)] : v \in Rng(VarInfo(e.src, HomeClass(e)))}
 Count(q, x) == Cardinality({i \in DOMAIN q : q[i] = x})
 BagEq(p, q) == Len(p) = Len(q) /\ \A x \in Rng(p) \cup Rng(q) : Count(p, x) = Count(q, x)
@@ -35,7 +35,9 @@ Conform(e) == IF e.err # "" THEN "prebuilds" ELSE FirstBad(<<
     <<"statements", Rng(e.facts.stmts) = ExpStmts(e) /\ Len(e.facts.stmts) = Cardinality(ExpStmts(e))>>,
     <<"values", Rng(e.facts.vals) = ExpVals(e)>>,
     <<"variables", OwnVars(e) = ExpVars(e)>>,
-    <<"parameters", BagEq(e.facts.ppairs, ParamPairs(e.src))>>
+    <<"parameters", BagEq(e.facts.ppairs, ParamPairs(e.src))>>,
+    \* C08: the keyword-valued attributes are stored in one letter case whatever the case of the source text
+    <<"keyword_case", e.strict = "no" \/ \A i \in DOMAIN e.facts.rawkw : e.facts.rawkw[i][1] = e.facts.rawkw[i][2]>>
   >>)
 
 TNext == /\ TEnabled /\ UNCHANGED dummy
